@@ -1141,20 +1141,89 @@ func rulesC19(c *Ctx) {
 			}
 			return tv
 		}
+		// mixedFns: functions that hand out a view on some returns and an owned buffer on others (with a flag that says which)
+		mixedFns := map[*types.Func]bool{}
 		for round := 0; round < 3; round++ {
 			for _, f := range fns {
 				if f.Lit != nil || f.Obj == nil {
 					continue
 				}
 				tv := taintedIn(f)
+				nView, nOwned := 0, 0
 				for _, r := range f.Returns() {
 					for _, e := range r.Results {
+						sl, isSl := f.TypeOf(e).Underlying().(*types.Slice)
+						if !isSl {
+							continue
+						}
+						if b, isB := sl.Elem().Underlying().(*types.Basic); !isB || b.Kind() != types.Uint8 {
+							continue
+						}
 						if isView(f, e, tv) {
-							viewFns[f.Obj.Origin()] = true
+							nView++
+						} else if !isNilIdent(e) {
+							nOwned++
 						}
 					}
 				}
+				if nView > 0 {
+					viewFns[f.Obj.Origin()] = true
+					if nOwned > 0 {
+						mixedFns[f.Obj.Origin()] = true
+					}
+				}
 			}
+		}
+		// fromMixed: the view-ness of e hinges on such a function (directly or through locals)
+		var fromMixed func(f *Func, e ast.Expr, depth int) bool
+		fromMixed = func(f *Func, e ast.Expr, depth int) bool {
+			if depth > 4 {
+				return false
+			}
+			switch x := ast.Unparen(e).(type) {
+			case *ast.Ident:
+				tv := taintedIn(f)
+				nView, nOwned := 0, 0
+				for _, w := range Writes(f.Root().Body, true) {
+					if f.ObjOf(w.LHS) != f.ObjOf(x) || f.ObjOf(x) == nil {
+						continue
+					}
+					src := w.RHS
+					if src == nil {
+						if as, ok := w.Stmt.(*ast.AssignStmt); ok && len(as.Rhs) == 1 {
+							src = as.Rhs[0]
+						}
+					}
+					if src == nil {
+						continue
+					}
+					if fromMixed(f, src, depth+1) {
+						return true
+					}
+					// a variable that is given a view in one place and an owned buffer in another (an expanded helper that
+					// returned either, with a flag saying which)
+					if isView(f, src, tv) {
+						nView++
+					} else if !isNilIdent(src) {
+						nOwned++
+					}
+				}
+				if nView > 0 && nOwned > 0 {
+					return true
+				}
+			case *ast.SliceExpr:
+				return fromMixed(f, x.X, depth+1)
+			case *ast.CallExpr:
+				if fn := f.Callee(x); fn != nil {
+					if mixedFns[fn.Origin()] {
+						return true
+					}
+					if aliasing[fn.FullName()] && len(x.Args) > 0 {
+						return fromMixed(f, x.Args[0], depth+1)
+					}
+				}
+			}
+			return false
 		}
 		nSrc, nSink := 0, 0
 		for _, f := range fns {
@@ -1176,6 +1245,10 @@ func rulesC19(c *Ctx) {
 				if sel, isSel := lhs.(*ast.SelectorExpr); isSel {
 					if fv, isF := f.ObjOf(sel.Sel).(*types.Var); isF && fv.IsField() {
 						nSink++
+						if isView(f, w.RHS, tv) && fromMixed(f, w.RHS, 0) {
+							c.Undecided("borrowed-buffer:stored:"+f.Name()+":"+fv.Name(), f, w.Stmt, "%s receives %s, which comes from a function that returns a view of the reader's buffer on some paths and an owned buffer on others: whether this store only sees the owned ones is a flag-dependent fact this rule does not track", exprStr(w.LHS), exprStr(w.RHS))
+							continue
+						}
 						c.Check(!isView(f, w.RHS, tv), "borrowed-buffer:stored:"+f.Name()+":"+fv.Name(), f, w.Stmt, "%s receives a copy, not a view of the reader's buffer (%s)", exprStr(w.LHS), exprStr(w.RHS))
 					}
 				}
